@@ -427,6 +427,19 @@ func (c11) Gen(rs uint64, tier string, race bool) interface{} {
 		a = "codonalign -i codon.aa.fa -f nt.unaligned.fa"
 	}
 	c.Args = strings.Fields(a)
+	if !phy && t.in == "nt" && strings.Contains(t.args, "{in}") && r.Chance(0.15) {
+		// the same input through a pipe instead of a file (-i defaults to stdin)
+		var na []string
+		for k := 0; k < len(c.Args); k++ {
+			if c.Args[k] == "-i" && k+1 < len(c.Args) && c.Args[k+1] == "nt.fa" {
+				k++
+				continue
+			}
+			na = append(na, c.Args[k])
+		}
+		c.Args = na
+		c.Stdin = c.Files["nt.fa"]
+	}
 	if t.noThr {
 		c.Threads = 1
 	}
